@@ -2643,6 +2643,18 @@ class Verdict:
         IN = self._propagate(g, sc, seed, avoid, closed)
         return {n for n in g.nodes() if IN[n] is not None}
 
+    def reach_from(self, sc: Dict[str, bool], starts: Iterable[int], avoid: Iterable[int] = (), known: Optional[Dict[str, bool]] = None) -> Set[int]:
+        """CFG nodes reachable from `starts` when the scenario holds FROM THERE ON (it need not hold on the way to the start nodes, unlike
+        `reach(sc, start=..)`): the start nodes are entered with the boolean locals that are decided there whatever the atoms are, and with
+        the values in `known`."""
+        g = C.cfg_of(self.f.node)
+        neutral = self._propagate(g, {}, None, set())
+        seed = {n: {**(neutral.get(n) or {}), **(known or {})} for n in starts}
+        if not seed:
+            return set()
+        IN = self._propagate(g, sc, seed, set(avoid))
+        return {n for n in g.nodes() if IN[n] is not None}
+
     def _reach_in(self, sc: Dict[str, bool]) -> Dict[int, Optional[Dict[str, bool]]]:
         return self._propagate(C.cfg_of(self.f.node), sc, None, set())
 
